@@ -16,13 +16,20 @@ variable {φ : Type}
 
 /-! ## Delay: echoes -/
 
-/-- **the line length is ⌊delay·fs⌋ frames** (delay time in nanoseconds `ns`, sample rate `sr`), for `init`
+/-- **the line length is max(⌊delay·fs⌋, 1) frames** (delay time in nanoseconds `ns`, sample rate `sr`), for `init`
     and for a sample-rate change, all zeros.  (Over ℝ.  In `f64` the product can round below a whole number
     of frames: known finding `delay-length-float-floor`.) -/
 theorem C14_delay_line_length (C : FxChain ℝ φ) (d : Delay ℝ φ) (sr ibs : ℕ) :
-    (d.init C sr ibs).buffer = List.replicate ⌊(d.delayNs : ℝ) / 1000000000 * (sr : ℝ)⌋₊ Frame.zero
-      ∧ (d.changeRate C sr).buffer = List.replicate ⌊(d.delayNs : ℝ) / 1000000000 * (sr : ℝ)⌋₊ Frame.zero := by
+    (d.init C sr ibs).buffer = List.replicate (max ⌊(d.delayNs : ℝ) / 1000000000 * (sr : ℝ)⌋₊ 1) Frame.zero
+      ∧ (d.changeRate C sr).buffer
+          = List.replicate (max ⌊(d.delayNs : ℝ) / 1000000000 * (sr : ℝ)⌋₊ 1) Frame.zero := by
   simp [Delay.init, Delay.changeRate, Delay.frames, durToSecs_real]
+
+/-- the line is never empty (at least one frame, whatever the delay time and sample rate): the
+    `chunks_mut(0)` panic of a zero-length line is unreachable. -/
+theorem C14_delay_line_nonempty (C : FxChain ℝ φ) (d : Delay ℝ φ) (sr ibs : ℕ) :
+    1 ≤ (d.init C sr ibs).buffer.length ∧ 1 ≤ (d.changeRate C sr).buffer.length := by
+  simp [Delay.init, Delay.changeRate, Delay.frames]
 
 /-- **echoes at exact multiples of the delay time.**  A delay with a fresh line of `L ≥ 1` frames,
     stagnant feedback (amplitude `a = 10^(dB/20)`) and mix, and memoryless feedback effects `g`
